@@ -139,7 +139,7 @@ def prepare(tier):
 
 def shards(tier, seed):
     """quick: 7 NVX shards per framework + one pure-Python shard per framework = 16 processes, ~30 s of CPU each;
-    thorough: 4 NVX + 4 pure-Python shards per framework = 16 processes, ~5-6 min of CPU each."""
+    thorough: 4 NVX + 4 pure-Python shards per framework = 16 processes, ~5 min of CPU each."""
     out = []
     nvx_env = _nvx_env()
     pure_env = {"AUTOBAHN_USE_NVX": "0"}
@@ -1389,7 +1389,7 @@ def run_shard(params, R):
     phase["early"] = round(time.time() - t1, 1)
     # 4. every cut position of short streams (every pair of cut positions for some of them in thorough)
     t1 = time.time()
-    for i in range(14 if thorough else (2 if mini else 4)):
+    for i in range(20 if thorough else (2 if mini else 4)):
         cs = S()
         probe = CaseRun({"kind": "cuts", "seed": cs, "tier": tier}, R).run()
         lens = getattr(probe, "stream_len", {})
@@ -1400,7 +1400,7 @@ def run_shard(params, R):
             for c in range(1, L):
                 run_case({"kind": "cuts", "seed": cs, "tier": tier, "cut": [d, c]}, R)
             R.count("streams_cut_exhaustively")
-            if thorough and i < 4:
+            if thorough and i < 6:
                 for c1 in range(1, L):
                     for c2 in range(c1 + 1, L):
                         run_case({"kind": "cuts", "seed": cs, "tier": tier, "cut": [d, c1, c2]}, R)
@@ -1409,7 +1409,7 @@ def run_shard(params, R):
     # 5. random cases
     t1 = time.time()
     # fixed amounts of work, not wall time: the same seed runs the same cases on a loaded machine too
-    n_rand = 110 if not thorough else 1400
+    n_rand = 110 if not thorough else 4000
     for i in range(n_rand):
         kind = "glue" if rng.random() < 0.12 else "pair"
         case = {"kind": kind, "seed": S(), "tier": tier}
